@@ -19,8 +19,7 @@
    again); [fg = false] models the variant `if self._state == State.CLOSED: return` at the top of close().
    The theorems are about [fe = fc = fl = fd = fg = true]; the refutations use [false].
 
-   Not modelled: `_seed_network_map` (only runs with build_network_map=True; it is a sequence of
-   sleeps and `send`s, and `send` IS modelled), the number of frames a
+   Not modelled: the number of frames a
    `send` still has to write (a suspended drain may be followed by another), cancellation of
    `connect`/`send`/`close` tasks by the application, a status/receive callback that swallows
    CancelledError. *)
@@ -68,6 +67,14 @@ Record g := mkG {
   q : Z;                         (* queue.qsize() *)
   buf : Z; eof : bool; rexc : bool;   (* self.reader: buffered bytes, feed_eof() seen, set_exception() seen *)
   send_drain : nat; send_cb : nat;    (* send() coroutines suspended in drain / in the status callback *)
+  (* `_seed_network_map()` tasks (created by every successful connect() when the parameter [seeding] is on): sleep 2 s, send,
+     sleep 2 s, send, sleep 2 s, send.  The tasks are anonymous; what each still has to do is kept in two shared pools,
+     an over-approximation: [seed_more] = how many more times a task may go back to sleep after a send (2 per task created),
+     [seed_susp] = how many more times a seeding send may suspend (2 per send: the send lock, the drain of its one frame) *)
+  seed_new : nat;                (* created, not started *)
+  seed_sleep : nat;              (* asleep before a send *)
+  seed_drain : nat; seed_cb : nat;    (* inside send(): suspended in the lock / drain; in the status callback of its fault handler *)
+  seed_more : nat; seed_susp : nat;
   closing : cpc;                 (* the FIRST close() call *)
   c2_rx : nat; c2_cons : nat;    (* further close() calls asleep after cancelling the receive task / the queue consumer *)
   closes_done : nat;             (* ghost: number of close() calls that have returned *)
@@ -76,13 +83,14 @@ Record g := mkG {
 }.
 #[export] Instance eta_g : Settable _ := settable! mkG
   <st; lock; hold; pending_connects; writer; next_w; closed_w; drainfail_w; attempts; rx; rx_creq; old_creq;
-   old_live; cons; cons_creq; q; buf; eof; rexc; send_drain; send_cb; closing; c2_rx; c2_cons; closes_done; n0; trace>.
+   old_live; cons; cons_creq; q; buf; eof; rexc; send_drain; send_cb; seed_new; seed_sleep; seed_drain; seed_cb; seed_more; seed_susp; closing; c2_rx; c2_cons; closes_done; n0; trace>.
 
 Definition init : g :=
   {| st := Disc; lock := false; hold := HNone; pending_connects := 0; writer := None; next_w := 0;
      closed_w := []; drainfail_w := []; attempts := 0; rx := RNone; rx_creq := false; old_creq := 0;
      old_live := 0; cons := CNew; cons_creq := false; q := 0; buf := 0; eof := false; rexc := false;
-     send_drain := 0; send_cb := 0; closing := KNone; c2_rx := 0; c2_cons := 0; closes_done := 0; n0 := 0; trace := [] |}.
+     send_drain := 0; send_cb := 0; seed_new := 0; seed_sleep := 0; seed_drain := 0; seed_cb := 0; seed_more := 0;
+     seed_susp := 0; closing := KNone; c2_rx := 0; c2_cons := 0; closes_done := 0; n0 := 0; trace := [] |}.
 
 Inductive act :=
 | AUserConnect                 (* the application: create_task(client.connect()) *)
@@ -98,7 +106,12 @@ Inductive act :=
 | AClose (cb : cbout) | ACloseCbDone | ACloseTimer
 | AEnvFeed (n : Z) | AEnvEof | AEnvReset
 | AClose2Entry                 (* a further close() call (the state is CLOSED already: no status callback) runs up to its first sleep / return *)
-| AClose2Timer (rxphase : bool). (* its 10 ms sleep after cancelling the receive task (true) / the queue consumer (false) is over *)
+| AClose2Timer (rxphase : bool)  (* its 10 ms sleep after cancelling the receive task (true) / the queue consumer (false) is over *)
+| ASeedStart                   (* a `_seed_network_map()` task runs up to its first sleep *)
+| ASeedTimer (o : sendout) (more : bool)     (* its 2 s sleep is over: it calls send(); [o] = what that send does in this step;
+                                                [more] (when the send returns in this step) = another sleep follows / the task ends *)
+| ASeedDrainDone (o : sendout) (more : bool) (* its send() resumes from the lock / the drain *)
+| ASeedCbDone (more : bool).                 (* its send()'s fault handler resumes from the status callback *)
 
 (* ---- tenacity.wait_exponential(multiplier=0.5, max=10) in units of 0.5 s (exact) ----
      try:    exp = 2 ** (attempt_number - 1); result = 0.5 * exp      # int -> float conversion
@@ -129,23 +142,25 @@ Definition close_cur_writer (x : g) : g :=
 
 (* asyncio.create_task(self._receive_loop()) replacing self._receive_task; then (repaired) the
    `if self._state == State.DISCONNECTED: create_task(self.connect())` check; releases the lock *)
-Definition start_rx (fl : bool) (x : g) : g :=
+Definition seed_task (sd : bool) (x : g) : g :=      (* `if self.seed_network_map: asyncio.create_task(self._seed_network_map())` *)
+  if sd then x <| seed_new := S (seed_new x) |> <| seed_more := S (S (seed_more x)) |> else x.
+Definition start_rx (sd fl : bool) (x : g) : g :=
   let a := rx_alive x in
-  let y := release (x <| old_creq := if a && rx_creq x then S (old_creq x) else old_creq x |>
+  let y := release (seed_task sd (x <| old_creq := if a && rx_creq x then S (old_creq x) else old_creq x |>
                       <| old_live := if a && negb (rx_creq x) then S (old_live x) else old_live x |>
-                      <| rx := RCreated |> <| rx_creq := false |>) in
+                      <| rx := RCreated |> <| rx_creq := false |>)) in
   if fl && cst_eqb (st y) Disc then spawn_connect y else y.
 
 (* connect(): after `await self._update_state(State.CONNECTED)` *)
-Definition post_status (fl : bool) (x : g) : g :=
-  if rx_alive x then x <| rx_creq := true |> <| hold := HCancelWait |> else start_rx fl x.
+Definition post_status (sd fl : bool) (x : g) : g :=
+  if rx_alive x then x <| rx_creq := true |> <| hold := HCancelWait |> else start_rx sd fl x.
 
-Definition impl_ok (fc fl : bool) (y : g) (cb : cbout) : option g :=
+Definition impl_ok (sd fc fl : bool) (y : g) (cb : cbout) : option g :=
   if fc && is_closed y then
     match cb with CbNone => Some (release (close_cur_writer y)) | _ => None end
   else match upd y Conn cb with
        | None => None
-       | Some z => match cb with CbSusp => Some (z <| hold := HStatusCb |>) | _ => Some (post_status fl z) end
+       | Some z => match cb with CbSusp => Some (z <| hold := HStatusCb |>) | _ => Some (post_status sd fl z) end
        end.
 
 (* fault handler shared by _receive_loop and send: `fin` = what the task does after create_task(connect()),
@@ -209,6 +224,29 @@ Definition send_out (x : g) (o : sendout) : option g :=
                  else fault x cb (fun z => z) (fun z => z <| send_cb := S (send_cb z) |>)
   end.
 
+(* a seeding task after a send() of its own has returned: another sleep (uses one [seed_more]) or the end of the task *)
+Definition seed_next (more : bool) (x : g) : option g :=
+  if more then match seed_more x with
+               | O => None
+               | S n => Some (x <| seed_more := n |> <| seed_sleep := S (seed_sleep x) |>)
+               end
+  else Some x.
+(* one step of a send() made by a seeding task: as [send_out], then the task goes on *)
+Definition seed_send (x : g) (o : sendout) (more : bool) : option g :=
+  match o with
+  | SReturn => seed_next more x
+  | SDrainSusp => match seed_susp x with
+                  | O => None
+                  | S n => Some (x <| seed_susp := n |> <| seed_drain := S (seed_drain x) |>)
+                  end
+  | SFault cb =>
+      if is_closed x then None
+      else match cb with
+           | CbSusp => fault x cb (fun z => z) (fun z => z <| seed_cb := S (seed_cb z) |>)
+           | _ => match fault x cb (fun z => z) (fun z => z) with Some z => seed_next more z | None => None end
+           end
+  end.
+
 (* close(): from `if self.writer: self.writer.close()` on *)
 Definition close_returned (x : g) : g := x <| closes_done := S (closes_done x) |>.
 Definition close_cons (x : g) : g :=
@@ -232,6 +270,7 @@ Definition allowed (x : g) (a : act) : bool :=
 
 Section Model.
 Variable k : kind.
+Variable sd : bool.                  (* [seeding]: connect() creates a `_seed_network_map()` task (build_network_map=True on a seeding client) *)
 Variables fe fc fl fd fg : bool.
 
 Definition trans (x : g) (a : act) : option g :=
@@ -253,8 +292,8 @@ Definition trans (x : g) (a : act) : option g :=
       end
   | AImplOk cb =>
       match hold x with
-      | HAwaitImpl _ => impl_ok fc fl (new_conn x) cb
-      | HAwaitDrain _ => impl_ok fc fl x cb
+      | HAwaitImpl _ => impl_ok sd fc fl (new_conn x) cb
+      | HAwaitDrain _ => impl_ok sd fc fl x cb
       | _ => None
       end
   | AImplFail d =>
@@ -282,8 +321,8 @@ Definition trans (x : g) (a : act) : option g :=
       | HBackoff n => if is_closed x then Some (release x) else Some (start_attempt x (S n))
       | _ => None
       end
-  | AConnCbDone => match hold x with HStatusCb => Some (post_status fl x) | _ => None end
-  | ACancelWaitDone => match hold x with HCancelWait => Some (start_rx fl x) | _ => None end
+  | AConnCbDone => match hold x with HStatusCb => Some (post_status sd fl x) | _ => None end
+  | ACancelWaitDone => match hold x with HCancelWait => Some (start_rx sd fl x) | _ => None end
   | ARxStart =>
       match rx x with
       | RCreated => if rx_creq x then None else Some (rx_loop_test x)
@@ -377,6 +416,17 @@ Definition trans (x : g) (a : act) : option g :=
       | O => None
       | S n => if negb (cons_creq x) then Some (close_returned (x <| c2_cons := n |>)) else None
       end
+  | ASeedStart =>
+      match seed_new x with O => None | S n => Some (x <| seed_new := n |> <| seed_sleep := S (seed_sleep x) |>) end
+  | ASeedTimer o more =>
+      match seed_sleep x with
+      | O => None
+      | S n => seed_send (x <| seed_sleep := n |> <| seed_susp := S (S (seed_susp x)) |>) o more
+      end
+  | ASeedDrainDone o more =>
+      match seed_drain x with O => None | S n => seed_send (x <| seed_drain := n |>) o more end
+  | ASeedCbDone more =>
+      match seed_cb x with O => None | S n => seed_next more (spawn_connect (x <| seed_cb := n |>)) end
   end.
 
 Fixpoint run (x : g) (ls : list act) : option g :=
